@@ -93,6 +93,14 @@ class SrcInfo:
         return None
 
     def enum_variants(self, name, variant=None):
+        if name.startswith("capnp:"):
+            base = name[len("capnp:"):]
+            cands = [c for c in zip(self.enums.get(base, []), self.enum_files.get(base, [])) if "_capnp" in c[1]]
+            if variant is not None:
+                cands = [c for c in cands if any(v == variant for v, _ in c[0])]
+            if cands and all(c[0] == cands[0][0] for c in cands):
+                return cands[0][0]
+            return None
         cands = list(zip(self.enums.get(name, []), self.enum_files.get(name, [])))
         if variant is not None:
             cands = [c for c in cands if any(v == variant for v, _ in c[0])]
